@@ -4,6 +4,7 @@ import (
 	"fmt"
 	"math"
 	"math/rand"
+	"reflect"
 	"strconv"
 	"strings"
 
@@ -118,8 +119,19 @@ func (e *enode) real() qframe.Expression {
 			args[i] = qframe.Val(args[i])
 		}
 	}
+	// the operand slice belongs to the caller: building the expression must not write to it
+	snapshot := append([]interface{}(nil), args...)
+	expr := qframe.Expr(e.name, args...)
+	if !reflect.DeepEqual(snapshot, args) {
+		c07ArgMutation = fmt.Sprintf("Expr(%q, operands...) with %d operands overwrote entries of the caller's operand slice", e.name, len(args))
+	}
+	_ = expr
+	// build it a second time from the very same slice, as a caller reusing its operand list would
 	return qframe.Expr(e.name, args...)
 }
+
+// c07ArgMutation is set when building an expression modified the slice handed to qframe.Expr.
+var c07ArgMutation string
 
 // user functions registered in the context
 func userI2(x, y int) int         { return x*3 - y }
@@ -579,6 +591,7 @@ func runC07(c *fw.Case) {
 		c.Eval(1)
 		var res qframe.QFrame
 		useCtx := rng.Intn(3) > 0 || usesUserFn(e)
+		c07ArgMutation = ""
 		if !c.GuardFail("eval", desc, func() {
 			if useCtx {
 				res = root.QF.Eval(dst, e.real(), eval.EvalContext(ctx))
@@ -586,6 +599,10 @@ func runC07(c *fw.Case) {
 				res = root.QF.Eval(dst, e.real())
 			}
 		}) {
+			continue
+		}
+		if c07ArgMutation != "" {
+			c.Fail("operand-slice-modified", "%s: %s", desc, c07ArgMutation)
 			continue
 		}
 		if res.Err != nil {
